@@ -380,11 +380,17 @@ type c19Case struct {
 	Removed string    `json:"removed"` // "" or the path of the removed file relative to the replica root
 	Latest  bool      `json:"latest"`  // no timestamp
 	T       int       `json:"t_s"`     // requested timestamp = 2023-11-14T22:13:20Z + t_s seconds (if !latest)
+	// AfterFailed: the restore is the SECOND attempt into the same output path; the first one (no timestamp)
+	// failed on the same replica. What a failed attempt leaves behind must not change a later result.
+	AfterFailed bool `json:"after_failed_attempt,omitempty"`
 }
 
 func (c c19Case) TString() string {
 	if c.Latest {
 		return "latest"
+	}
+	if c.AfterFailed {
+		return strconv.Itoa(c.T) + "/after-failed-attempt"
 	}
 	return strconv.Itoa(c.T)
 }
@@ -758,14 +764,15 @@ type c19Verdict struct {
 }
 
 type c19Worker struct {
-	dir     string // private scratch
-	repl    string // replica root
-	ltxOnly string // same LTX files alone (reference for the LTX side)
-	seq     int
-	st      *c19Stats
-	rep     *ev.Reporter
-	phase   string
-	ltxExp  map[string]c19LTXExp
+	dir         string // private scratch
+	repl        string // replica root
+	ltxOnly     string // same LTX files alone (reference for the LTX side)
+	seq         int
+	st          *c19Stats
+	rep         *ev.Reporter
+	phase       string
+	ltxExp      map[string]c19LTXExp
+	afterFailed bool // restore() makes a failing attempt into the same output path first
 }
 
 type c19LTXExp struct {
@@ -822,6 +829,17 @@ func (w *c19Worker) restore(root string, latest bool, T int) ([]byte, error) {
 	}()
 	c := file.NewReplicaClient(root)
 	r := litestream.NewReplicaWithClient(nil, c)
+	if w.afterFailed {
+		first := litestream.NewRestoreOptions()
+		first.OutputPath = out
+		if err := r.Restore(context.Background(), first); err == nil {
+			// the first attempt did not fail: nothing to follow up (the caller only asks when it should fail)
+			os.Remove(out)
+			os.Remove(out + "-wal")
+			os.Remove(out + "-shm")
+		}
+		r = litestream.NewReplicaWithClient(nil, file.NewReplicaClient(root))
+	}
 	opt := litestream.NewRestoreOptions()
 	opt.OutputPath = out
 	if !latest {
@@ -854,7 +872,7 @@ func (w *c19Worker) eval(b *c19Built, removed int, latest bool, T int) (*c19Verd
 	for i := range present {
 		present[i] = i != removed
 	}
-	cs := c19Case{Layout: b.L, Latest: latest, T: T}
+	cs := c19Case{Layout: b.L, Latest: latest, T: T, AfterFailed: w.afterFailed && !latest}
 	if removed >= 0 {
 		cs.Removed = b.Files[removed].Rel
 	}
@@ -1313,13 +1331,28 @@ func (w *c19Worker) runUnit(g *c19Gen, u c19Unit) error {
 	}
 	for _, r := range rem {
 		err := w.withRemoved(b, r, func() error {
-			if _, err := w.eval(b, r, true, 0); err != nil {
+			var latestFailed bool
+			if v, err := w.eval(b, r, true, 0); err != nil {
 				return err
+			} else {
+				latestFailed = strings.HasPrefix(v.Detail.Got, "error:")
 			}
 			for _, t := range ts {
 				if _, err := w.eval(b, r, false, t); err != nil {
 					return err
 				}
+			}
+			// second attempts: when the restore without timestamp fails on this replica, every timestamped restore
+			// is repeated into an output path on which that failing attempt has just been made
+			if latestFailed && u.L.LTX == "" {
+				w.afterFailed = true
+				defer func() { w.afterFailed = false }()
+				for _, t := range ts {
+					if _, err := w.eval(b, r, false, t); err != nil {
+						return err
+					}
+				}
+				w.afterFailed = false
 			}
 			return nil
 		})
@@ -1602,6 +1635,7 @@ func c19Replay(path string) int {
 	var v *c19Verdict
 	err = w.withRemoved(bl, rm, func() error {
 		var err error
+		w.afterFailed = cs.AfterFailed
 		v, err = w.eval(bl, rm, cs.Latest, cs.T)
 		return err
 	})
